@@ -60,6 +60,9 @@ def parse_label(lab):
         return dict(kind="exit_exc")
     if lab.startswith("Exit"):
         return dict(kind="exit")
+    m = re.match(r'Set(Ok|No)\((\d+)(?:,\s*"(\w+)")?\)', lab)
+    if m:
+        return dict(kind="set", u=int(m.group(2)), c=-1, cause=m.group(3))
     m = re.search(r'op \|-> "(\w+)"', lab)
     if not m:
         m2 = re.match(r"(\w+)", lab)
